@@ -931,7 +931,10 @@ func NewRSReplicasLimit(partition intstrutil.IntOrString, deployment *apps.Deplo
 	replicas := int(*deployment.Spec.Replicas)
 	replicaLimit, _ := intstrutil.GetScaledValueFromIntOrPercent(&partition, replicas, true)
 	replicaLimit = integer.IntMax(integer.IntMin(replicaLimit, replicas), 0)
-	if replicas > 1 && partition.Type == intstrutil.String && partition.String() != "100%" {
+	// a percentage partition keeps one old pod back unless it covers the whole workload; decide that on the value of
+	// the percentage, not on the spelling "100%" ("150%" or "0100%" cover everything as well)
+	percent, _ := intstrutil.GetScaledValueFromIntOrPercent(&partition, 100, true)
+	if replicas > 1 && partition.Type == intstrutil.String && percent < 100 {
 		replicaLimit = integer.IntMin(replicaLimit, replicas-1)
 	}
 	return int32(replicaLimit)
